@@ -319,7 +319,28 @@ def component_names(ctx) -> None:
         ctx.check(bool(defs) and all(dotted_end(d) for d in defs), 'C18.components', load, f'the "already absolute" test compares against the package prefix *including the dot* (`{core.src(arg)}` = {[core.src(d) for d in defs]})', c, key='load:prefix-dot')
 
 
+def install_guard(ctx) -> None:
+    """"already installed" is decided by the *whole* manifest read back from the target (name, version, package and module map):
+    a different build under the same name/version must replace the stale tree."""
+    prog = ctx.prog
+    un = prog.func(f'{DIST}:Package.install').nested('uninstalled').inlined()
+    rets = [r for r in core.walk_local(un.node) if isinstance(r, ast.Return) and core.is_const(r.value, False)]
+    ctx.floor('C18.install', len(rets), 1)
+    for r in rets:
+        g = cfg.cguards(r, un.node)
+        ok = g in ([('Manifest.read(path) == self.manifest', True)], [('self.manifest == Manifest.read(path)', True)])
+        ctx.check(ok, 'C18.package', un, f'the existing installation is kept only when its manifest equals the package manifest as a whole (guards {g})', r, key='install:same-manifest')
+    inst = prog.func(f'{DIST}:Package.install')
+    ret = [r for r in inst.body if isinstance(r, ast.Return)]
+    ctx.check(len(ret) == 1 and core.src(ret[0].value) == '_body.Artifact(path, self.manifest.package, **self.manifest.modules)', 'C18.package', inst, 'the artifact is described by the package\'s own manifest (package and module map)', inst.node, key='install:artifact')
+
+
 def run(ctx) -> None:
+    from . import C08
+
+    C08.eqhash_agreement(ctx, ('forml.io.asset', 'forml.project'), floor=3)
+    C05.gap_free(ctx)
+    install_guard(ctx)
     key_gate(ctx)
     package_content(ctx)
     component_names(ctx)
